@@ -220,7 +220,7 @@ type retained struct {
 	outB               []byte   // m.Bytes / helpers: the returned slice itself
 	outS               string   // m.String
 	isString           bool
-	snk                *sink    // Minify, MinifyMimetype, Writer
+	snk                *sink // Minify, MinifyMimetype, Writer
 	rec                *httptest.ResponseRecorder
 	parts              [][]byte // Reader: every buffer that was read into
 	err                string
